@@ -56,6 +56,10 @@ let run () =
             (* a constructor that throws must give back what it took *)
             let ups = List.filter_map (function EUp (a, s) -> Some (a, s) | _ -> None) events in
             if List.rev ups <> downs then diverge "constructor threw without returning its blocks" line
+          | "ma" :: _, _ ->
+            (* move assignment onto another allocator: exactly the assigned-to object's own blocks go back, newest first *)
+            let ups = List.filter_map (function EUp (a, s) -> Some (a, s) | _ -> None) events in
+            if List.rev ups <> downs then diverge "move assignment must return exactly the assigned-to allocator's blocks" line
           | _ -> if downs <> [] then diverge "block returned upstream before destruction" line);
          if uerrs <> [] then diverge ("upstream-side error " ^ String.concat " " uerrs) line;
          let caps = kv caps in
@@ -210,7 +214,7 @@ let run () =
          (match split_ws line with
           | ("corrupt" | "nofill") :: _ -> diverge "implementation-side oracle" line
           | "end" :: rest ->
-            List.iter (fun (k, v) -> if (k = "live_blocks" || k = "errors") && v <> 0 then diverge ("at exit " ^ k) line) (kv (String.concat " " rest))
+            List.iter (fun (k, v) -> if (k = "live_blocks" || k = "errors" || k = "stale_writes") && v <> 0 then diverge ("at exit " ^ k) line) (kv (String.concat " " rest))
           | _ -> ())
      done
    with End_of_file -> ());
